@@ -384,6 +384,8 @@ impl Spec for C08 {
             // an area created around it or at its own start afterwards
             ("empty-area-inside", vec![(0x1008, 0), (0x1000, 0x20)]),
             ("empty-area-at-start", vec![(0x1000, 0), (0x1000, 0x20)]),
+            // address 0 is an address like any other once an area is mapped there
+            ("starts-at-0", vec![(0, 0x20)]),
         ];
         let mut out = vec![];
         for (n, l) in layouts {
@@ -565,7 +567,7 @@ pub fn run(tier: Tier) -> i32 {
     }
     let depth = if tier.is_thorough() { 3 } else { 2 };
     let out = run_stexp(Arc::clone(&spec), depth, crate::common::ncpu(), 0, if tier.is_thorough() { 1500 } else { 45 });
-    st_evidence(&mut run, &out, depth, "transitions: mem_write_bytes (9 lengths incl. 0, area_len+1, 2^32), mem_write_8..128, guest MOV stores of 8..64 bits, at 14 edge addresses per area + {0, 2^63, 2^64-16, 2^64-8, 2^64-1}; after every successful write the complete read battery (mem_read_bytes x 12 lengths up to 2^64-1, mem_read_8..128, guest loads) is compared with the byte map; 7 layouts (one area, adjacent, gap, near the top, ending at 2^64, an empty area inside / at the start of a later area)");
+    st_evidence(&mut run, &out, depth, "transitions: mem_write_bytes (9 lengths incl. 0, area_len+1, 2^32), mem_write_8..128, guest MOV stores of 8..64 bits, at 14 edge addresses per area + {0, 2^63, 2^64-16, 2^64-8, 2^64-1}; after every successful write the complete read battery (mem_read_bytes x 12 lengths up to 2^64-1, mem_read_8..128, guest loads) is compared with the byte map; 8 layouts (one area, adjacent, gap, near the top, ending at 2^64, an empty area inside / at the start of a later area)");
     run.cov("layouts_created", json!(spec.inits().iter().map(|i| i.0.clone()).collect::<Vec<_>>()));
     // (no guard on the number of layouts: whether an empty area may be created at a given place
     // is not C08's business; the evidence lists the layouts that exist)
